@@ -99,9 +99,11 @@ Definition enc_outcome {A} (f : A -> list N) (o : outcome A) : list N :=
   match o with Err => [0] | Panic => [1] | Ok a => 2 :: f a end.
 
 (* which version of the text parsers describes the current /repo (see DESIGN §5) *)
-Definition parse_square (dbg : bool) := parse_square_orig dbg.
-Definition parse_action (dbg : bool) := parse_action_orig dbg.
-Definition parse_state (dbg : bool) := parse_state_orig dbg.
+(* /repo carries the fix: commits for F1-F3, so the repaired parsers are the model of the code;
+   the `_orig` definitions are kept for the `_refuted` lemmas that document the findings *)
+Definition parse_square (dbg : bool) := parse_square_fixed.
+Definition parse_action (dbg : bool) := parse_action_fixed.
+Definition parse_state (dbg : bool) := parse_state_fixed.
 
 (* tags: S state, H transposition hash, F from-scratch hash, V valid_actions, N no-rep,
    T terminal/has_move/can_pass, K previews, B earlier boards, D diagram, R re-parse, E equality *)
